@@ -114,11 +114,11 @@ def run(tier, work):
     print("TLC P1 EventFdImpl/MCCounter (pre-fix carrier): violated as expected (sensitivity)")
     # is the implementation still the carrier that was model-checked?  (binding of the P1 model: by replay below)
     cfgq = "GenQuick.cfg" if tier == "quick" else "GenThorough.cfg"
-    hists, gs = vlib.generate(SPEC, "AsyncRTGen", cfgq, work, "p2a", timeout=3000)
+    hists, gs = vlib.generate(SPEC, "AsyncRTGen", cfgq, work, "p2a", timeout=3000, heap="16g", cap=(6000 if tier == "quick" else 200000))
     print("TLC P1/P2 AsyncRTGen: %d states, %d transitions; %d behaviours" % (gs["states"], gs["transitions"], len(hists)))
     rnd = random.Random(vlib.SEED)
     hists.sort(key=lambda h: json.dumps(h, sort_keys=True))
-    cap = 6000 if tier == "quick" else 60000
+    cap = 6000 if tier == "quick" else 200000
     if len(hists) > cap:
         rnd.shuffle(hists)
         hists = hists[:cap]
